@@ -16,7 +16,7 @@ import ast
 from .. import algebra as al
 from ..astutil import dotted, src, walk_local, local_assignments, calls, if_chain, op_test, conjuncts
 from ..dispatch import dispatcher, exact_arm, unary_ops, binary_ops, operand_slots
-from ..report import AnalysisError
+from ..report import AnalysisError, Frag
 from ..terms import Tr, Untranslatable
 from .c15 import registered_gradient_kinds, _registry_first
 
@@ -562,12 +562,12 @@ def _vector_container_branches(prog, rep, rules):
             ok = f"return _simplify_div({wrt}, abs_({wrt}))" in s
             rep.pin('registered rules: container branches', "R02.5", fi.name, ok, "d||x||_1/dx_j = x_j / |x_j|" if ok else "the variable-container branch is not x_j / |x_j|", loc=fi.loc, detail="container-branch")
         elif kind == "LinearCombination":
-            ok = "for i, var in enumerate(vec._variables)" in s and "return Constant(float(coeffs[i]))" in s
+            ok = Frag(s, "for i, var in enumerate(vec._variables)", "return Constant(float(coeffs[i]))")
             rep.pin('registered rules: container branches', "R02.5", fi.name, ok, "d(c.x)/dx_j = c[position of x_j]" if ok else "the coefficient is not indexed by the position at which the variable was found", loc=fi.loc, detail="container-branch")
         elif kind == "QuadraticForm":
-            ok = "Q_sym = Q + Q.T" in s and "row_coeffs = Q_sym[i, :]" in s and "return LinearCombination(row_coeffs, vec)" in s and "for i, var in enumerate(vec._variables)" in s
+            ok = Frag(s, "Q_sym = Q + Q.T", "row_coeffs = Q_sym[i, :]", "return LinearCombination(row_coeffs, vec)", "for i, var in enumerate(vec._variables)")
             rep.pin('registered rules: container branches', "R02.5", fi.name, ok, "d(x'Qx)/dx_i = row i of (Q + Q')x" if ok else "the variable-container branch is not LinearCombination((Q + Q.T)[i, :], vec) for the position i of the variable", loc=fi.loc, detail="container-branch")
-            ok2 = "coeff = Q_sym[i, j]" in s and "_simplify_mul(qf_i, d_elem)" in s
+            ok2 = Frag(s, "coeff = Q_sym[i, j]", "_simplify_mul(qf_i, d_elem)")
             rep.pin('registered rules: container branches', "R02.5", fi.name, ok2, "expression branch: sum_i [(Q + Q')f]_i * d f_i" if ok2 else "the expression-vector branch is not sum_i [(Q + Q')f]_i * d f_i", loc=fi.loc, detail="expression-branch")
 
 
@@ -632,8 +632,8 @@ def _dot_partition(prog, rep, fi):
     s = src(fi.node)
     # four-way partition on (left_index, right_index) under both-VectorVariable
     both = "left_index is not None and right_index is not None" in s
-    only_l = "elif left_index is not None" in s and "return right_elems[left_index]" in s
-    only_r = "elif right_index is not None" in s and "return left_elems[right_index]" in s
+    only_l = Frag(s, "elif left_index is not None", "return right_elems[left_index]")
+    only_r = Frag(s, "elif right_index is not None", "return left_elems[right_index]")
     none = "return Constant(0.0)" in s
     rep.pin('gradient_dot_product', "R02.5", fi.name, both and only_l and only_r and none, "membership partition in-left x in-right has all four cases; single-side cases return the partner element at the found position" if both and only_l and only_r and none else "the (in-left, in-right) partition is incomplete or returns the wrong partner element", loc=fi.loc, detail="membership-partition")
     both_sum = "_simplify_add(\n                        right_elems[left_index], left_elems[right_index]" in s or "_simplify_add(right_elems[left_index], left_elems[right_index])" in s
